@@ -258,8 +258,10 @@ def rule_k6(ctx, F):
                     slot_writes.append((n, anc))
         if pk == ("lit", "/"):
             # rank separator: must be refused unless the rank is complete
-            conds = [hir.fmt(sym(x["cond"]), 200) for x, _ in hir.walk(arm) if x.get("k") == "If"]
-            has = any(re.search(r"\(col != 8\)|\(col < 8\)|!\(col == 8\)", c) for c in conds)
+            cnf = [hir.canon(hir.resolve_consts(sym(x["cond"]), F)) for x, _ in hir.walk(arm) if x.get("k") == "If" and hir.diverges(x["then"])]
+            conds = [hir.fmt(c, 200) for c in cnf]
+            has = any(c in (("bin", "!=", ("var", "col"), ("lit", 8)), ("bin", "<", ("var", "col"), ("lit", 8)),
+                            ("not", ("bin", "==", ("var", "col"), ("lit", 8)))) for c in cnf)
             ctx.check("C04.K6", "rank-complete-before-separator", has, fn=fn["path"], file=fn["file"], line=hir.line(arm),
                       what="the '/' arm of the FEN board scanner does not require a complete rank (col == 8): "
                            "squares left out get no empty-square key and the import hashes differently",
@@ -283,8 +285,10 @@ def rule_k6(ctx, F):
                       expected="one past_hashes[..] assignment per column advanced", found="advance by %s, %d slot write(s) in scope" % (amount, len(writes_here)))
     ctx.floor("C04.K6", "column advances", n_adv, 2)
     # final completeness test
-    conds = [hir.fmt(sym(x["cond"]), 200) for x, _ in hir.walk(body) if x.get("k") == "If"]
-    has = any(("row != 0" in c and "col != 8" in c) for c in conds)
+    cnf = [hir.canon(hir.resolve_consts(sym(x["cond"]), F)) for x, _ in hir.walk(body) if x.get("k") == "If"]
+    conds = [hir.fmt(c, 200) for c in cnf]
+    parts = {("bin", "!=", ("var", "row"), ("lit", 0)), ("bin", "!=", ("var", "col"), ("lit", 8))}
+    has = any(c[0] == "bin" and c[1] == "||" and {c[2], c[3]} == parts for c in cnf)
     ctx.check("C04.K6", "final-board-size-test", has, fn=fn["path"], file=fn["file"],
               what="Game::new no longer checks that the scan ended on (row 0, col 8)",
               expected="row != 0 || col != 8 => error", found=[c for c in conds if "row" in c or "col" in c][:4])
